@@ -925,4 +925,33 @@ example : ∃ b : Bytes, Cap.verifyProof TF TG Bytes b = true := by
   exact ⟨b, Cap.complete_at Cm Cd Cc 5 4 3 5 6 n b hb (by norm_num) (by decide) (by decide)
     (by decide) (by decide) (by decide) (by decide)⟩
 
+/-! ### range proofs, toy scale (width 2 = one 2-bit commitment, one folding round)
+
+`Range.complete` is stated for the three instruction widths, whose provers are too large to run inside
+the kernel. The decoded-level theorem `Zk.Range.prove_complete` holds for every `k`; here its
+hypotheses on the challenges (`y ≠ 0`, every `u_j ≠ 0`) are exhibited for an explicit instance with
+`k = 1`, and the verifier's acceptance is confirmed by evaluation in the kernel. -/
+section toyRange
+open Zk.Range
+
+def tgG : List TG := [(1, 1), (2, 5)]
+def tgH : List TG := [(3, 1), (4, 7)]
+def tnz : Nonces TF := ⟨2, [1, 2], [3, 4], 6, 7, 8⟩
+def tcomms : List TG := [pedersenWith (ScCodec.ofNat 3 : TF) 5]
+def ttr : Bytes := [1, 2, 3]
+def tproof : Bytes := prove ttr tgG tgH [2] (bitsOf [3] [2] : List TF) [5] tnz Tamper.none
+
+/-- the proof decodes, the challenges exist with `y ≠ 0` and `u ≠ 0`, and `verify` accepts -/
+def toyRangeOk : Bool :=
+  match parseProof (Sc := TF) (Pt := TG) tproof with
+  | some pf =>
+    match challenges ttr 2 pf with
+    | some (c : Challenges TF) => c.y != 0 && c.uSq.all (· != 0) && verify ttr tgG tgH tcomms [2] pf
+    | none => false
+  | none => false
+
+example : toyRangeOk = true := by decide +kernel
+
+end toyRange
+
 end Zk.Props.C05
